@@ -350,7 +350,8 @@ class Derivation(Constraint):
                             ok = False
                             break
                     else:
-                        new_x = x + ((t + delta) * window.stride * get_trial_size(x) + 1)
+                        # `delta` counts trials, so it must not be scaled by the stride
+                        new_x = x + ((t * window.stride + delta) * get_trial_size(x) + 1)
                         if new_x <= 0:
                             ok = False
                             break
